@@ -381,7 +381,8 @@ def gen(rng, tier):
         yield make(rng, shape="max_month_end", kind="time")
     for k in range(84 if tier == "quick" else 700):
         yield make_branch(rng, k % 7)
-    for _ in range(2 if tier == "quick" else 12):
+    yield make_big(rng, gsize=200, groups=2)        # the claim's limit is exercised on every run
+    for _ in range(1 if tier == "quick" else 11):
         yield make_big(rng)
 
 
